@@ -39,6 +39,25 @@ fn recombine(m: &Merchant, other: &Merchant, part: &str) -> Result<&'static Merc
     Ok(Box::leak(Box::new(f)))
 }
 
+/// merchant configuration identical to `m` except that digit signature `k` of the range parameters
+/// is re-randomised (same key, still a valid signature on digit k, `validate()` still passes)
+fn near_range_config(m: &Merchant, k: usize, rng: &mut (impl RngCore + CryptoRng)) -> Result<&'static Merchant, String> {
+    use ff::Field;
+    use group::Curve;
+    let mut t = trace(m.cfg.range_constraint_parameters())?;
+    let (s1, s2) = m.digit_sigs[k % m.digit_sigs.len()];
+    let r = Scalar::random(&mut *rng);
+    let n1 = (bls12_381::G1Projective::from(s1) * r).to_affine().to_compressed();
+    let n2 = (bls12_381::G1Projective::from(s2) * r).to_affine().to_compressed();
+    t.fset(&format!("digit_signatures/[{}]/sigma1", k), &n1)?;
+    t.fset(&format!("digit_signatures/[{}]/sigma2", k), &n2)?;
+    let range: zk::RangeConstraintParameters = dec(&t.bytes)?;
+    range.validate().map_err(|e| format!("near range parameters do not validate: {}", e))?;
+    let cfg = merchant::Config::from_parts(dec(&enc(m.cfg.signing_keypair()))?, dec(&enc(m.cfg.revocation_commitment_parameters()))?, range);
+    let f = fixtures::from_config(&format!("{}-digit-{}-rerandomised", m.label, k), cfg)?;
+    Ok(Box::leak(Box::new(f)))
+}
+
 fn context_variants(ctx: &[u8]) -> Vec<(&'static str, Vec<u8>)> {
     let mut v = vec![];
     let mut a = ctx.to_vec();
@@ -72,11 +91,23 @@ fn establish_case(c: &mut Ctx, m: &'static Merchant, other: &'static Merchant, n
     let mut subs: Vec<(String, Result<bool, String>)> = vec![];
     let cid2 = new_channel_id(m, &mut rng, b"m", b"c");
     subs.push(("channel-id-fresh".into(), init_accepts(m, &mut rng, &cid2, cust, merch, &proof, &ctx)));
-    let mut idb = cid.to_bytes();
-    idb[31] ^= 1;
-    if let Ok(cid3) = dec::<ChannelId>(&idb) {
-        subs.push(("channel-id-one-bit".into(), init_accepts(m, &mut rng, &cid3, cust, merch, &proof, &ctx)));
+    // every single bit of the channel id
+    for bit in 0..256usize {
+        let mut idb = cid.to_bytes();
+        idb[bit / 8] ^= 1 << (bit % 8);
+        if let Ok(cid3) = dec::<ChannelId>(&idb) {
+            c.eval();
+            match init_accepts(m, &mut rng, &cid3, cust, merch, &proof, &ctx) {
+                Ok(false) => c.count("rejected[establish/channel-id-single-bit]", 1),
+                Ok(true) => c.violation(
+                    "C06 accepted-under-substituted-tuple proof=EstablishProof component=channel-id-single-bit",
+                    json!({"bit": bit, "agreed": [cust.to_string(), merch.to_string()]}),
+                ),
+                Err(e) => c.inconclusive(&e),
+            }
+        }
     }
+    c.distinct(&format!("establish/channel-id-every-bit/{}", class_u64(cust)));
     for (k, cb, mb) in [
         ("customer-balance+1", cust.wrapping_add(1), merch),
         ("customer-balance-1", cust.wrapping_sub(1), merch),
@@ -135,6 +166,13 @@ fn pay_case(c: &mut Ctx, m: &'static Merchant, other: &'static Merchant, name: &
         }
     }
     subs.push(("other-merchant".into(), pay_accepts(other, &mut rng, amt, &nonce, &proof, &ctx)));
+    // near value of the range parameters: same key, one digit signature re-randomised (still valid)
+    for k in [0usize, 3, 127] {
+        match near_range_config(m, k, &mut rng) {
+            Ok(mx) => subs.push((format!("range-parameters-digit-signature-{}-rerandomised", k), pay_accepts(mx, &mut rng, amt, &nonce, &proof, &ctx))),
+            Err(e) => c.inconclusive(&e),
+        }
+    }
     let n = crate::refs::sc(&nonce).unwrap_or(Scalar::zero());
     subs.push(("nonce+1".into(), pay_accepts(m, &mut rng, amt, &(n + Scalar::one()).to_bytes(), &proof, &ctx)));
     let fresh_nonce = enc(&zk::internal::test_new_nonce(&mut rng));
@@ -376,6 +414,24 @@ fn closing_case(c: &mut Ctx, m: &'static Merchant, name: &str) {
                     ),
                     Err(_) => c.count("substituted_closing_not_decodable", 1),
                 }
+            }
+        }
+        // every single bit of the channel id (first messages of each channel only: 256 checks each)
+        if k.ends_with("@inactive") || k.ends_with("@started") {
+            if let Ok(cidb) = t.fget("close_state/channel_id") {
+                for bit in 0..256usize {
+                    let mut b = cidb.clone();
+                    b[bit / 8] ^= 1 << (bit % 8);
+                    let mut t3 = t.clone();
+                    let _ = t3.fset("close_state/channel_id", &b);
+                    c.eval();
+                    match close_accepts(m, &t3.bytes) {
+                        Ok(false) => c.count("substituted_closing_rejected[channel-id-single-bit]", 1),
+                        Ok(true) => c.violation("C06 closing-message-accepted-with-substituted field=close_state/channel_id from=single-bit-flip", json!({"message": k, "bit": bit})),
+                        Err(_) => {}
+                    }
+                }
+                c.distinct(&format!("closing/channel-id-every-bit/{}", k.split('@').last().unwrap_or("")));
             }
         }
         // near values
